@@ -145,6 +145,7 @@ func (e *Engine) verifyFunc(fn *ssa.Function, fc *FuncContract, safety bool, dev
 			for _, x := range exits {
 				env := fr.ownEnv(x.st, fr.entry, x.block)
 				env.tolerant = true
+				env.paramsAtEntry = true
 				if kind == "post" {
 					var res Val
 					if len(x.results) == 1 {
